@@ -179,7 +179,7 @@ where
 
 /// Execute the request with hedging strategy
 async fn execute_with_hedging<S, Req>(
-    service: S,
+    mut service: S,
     req: Req,
     config: Arc<HedgeConfig>,
 ) -> Result<S::Response, HedgeError<S::Error>>
@@ -204,8 +204,11 @@ where
     // Channel to collect results from all attempts
     let (tx, mut rx) = mpsc::channel::<(usize, Result<S::Response, S::Error>)>(max_attempts);
 
-    // Spawn primary request
+    // Spawn primary request on the instance that `poll_ready` was called on; `service`
+    // keeps a clone that every hedge is cloned from (each hedge drives its own clone to
+    // readiness before calling it)
     let mut service_clone = service.clone();
+    std::mem::swap(&mut service_clone, &mut service);
     let req_clone = req.clone();
     let tx_clone = tx.clone();
     tokio::spawn(async move {
@@ -302,7 +305,10 @@ where
                             let r = req.clone();
                             let tx_c = tx.clone();
                             tokio::spawn(async move {
-                                let result = svc.call(r).await;
+                                let result = match futures::future::poll_fn(|cx| svc.poll_ready(cx)).await {
+                                    Ok(()) => svc.call(r).await,
+                                    Err(e) => Err(e),
+                                };
                                 let _ = tx_c.send((attempt_num, result)).await;
                             });
 
@@ -368,7 +374,10 @@ where
                     let r = req.clone();
                     let tx_c = tx.clone();
                     tokio::spawn(async move {
-                        let result = svc.call(r).await;
+                        let result = match futures::future::poll_fn(|cx| svc.poll_ready(cx)).await {
+                            Ok(()) => svc.call(r).await,
+                            Err(e) => Err(e),
+                        };
                         let _ = tx_c.send((i, result)).await;
                     });
                 }
